@@ -35,6 +35,11 @@ def spec_on_impl(o):
     if o["err"]:
         return "size %d is rejected with %s" % (n, o["err"])
     outs = o["outs"] or []
+    if o.get("class") == "jump":
+        if o.get("jump_got") != str(o.get("jump_target")):
+            return "the element %d is not yielded: one step from its predecessor on the cycle gives %s (P=%s G'=%s)" % (
+                o["jump_target"], o.get("jump_got"), o["P"], o["G"])
+        return None
     if o.get("walk"):
         if o.get("dup"):
             return "the integer %s is yielded twice" % o["dup"]
@@ -167,6 +172,15 @@ def run(ctx):
             if why:
                 report(ctx, o, why)
         ctx.info.append("%d complete walks of sparse sizes (n just above a table prime) judged by the property" % len(sp))
+        ok, _ = ctx.harness_run("c04", ["-out", "jump.jsonl", "-jump"], timeout=600)
+        jp = ctx.read_jsonl(os.path.join(ctx.work, "jump.jsonl")) if ok else []
+        for o in jp:
+            ctx.count("jump", (o["n"], o["seed"], o.get("jump_target")), nontrivial=True)
+            why = spec_on_impl(o)
+            if why:
+                report(ctx, o, why)
+        ctx.info.append("%d single steps from the predecessor of n, n-1, 1 and a middle element (both ends of every table row, "
+                        "2^32, 2^32-1, 2^31): the element must be yielded" % len(jp))
     if not quick and os.path.exists(os.path.join(verif.HBIN, "c04")):
         # exhaustive over every n <= 2048 under 8 seeds, and one complete walk of a 2^24 range (bitmap check)
         ok, _ = ctx.harness_run("c04", ["-out", "sweep.jsonl", "-sweep", "2048,8"], timeout=1200)
